@@ -11,7 +11,10 @@ LEVEL = "exploration"
 SHARDS = {"quick": 8, "thorough": 16}
 RULE = (
     "streams of <= 40 def*/set*/delProperty/message/ping/getProperties messages over a small universe (3 device names x 3 property "
-    "names whose kind varies x 4 element names) in canonical or foreign XML spelling. 'direct': each message is parsed and handed to "
+    "names whose kind varies x 4 element names) in canonical or foreign XML spelling; some messages are verbatim repeats of earlier "
+    "ones, some updates are aimed at an earlier definition (same device, property, kind, subset of its elements), and BLOB elements "
+    "may declare a size that is that of uncompressed data (.z) or contradicts the payload (then the client may take it or leave it, "
+    "but must not choke on it). 'direct': each message is parsed and handed to "
     "BaseClient.process_message, the client's public view is compared with the reference interpreter (harness/refclient.py) after "
     "EVERY message; 'stream': the same streams as fragmented bytes through the real client ConnectionHandler.wait_for_messages "
     "task on fake streams (control mode and BLOB mode), compared at the end, the receive task must still be alive and a sentinel "
